@@ -105,7 +105,7 @@ def cargo_env(extra=None):
 
 
 def cargo_build(pkg, variant, features=None, toolchain=None, manifest_dir=None, extra_env=None,
-                bin_name=None, profile_release=True, allow_fail=False):
+                bin_name=None, profile_release=True, allow_fail=False, extra_args=None):
     """Build one simulator binary against the current tree.  Returns its path.
     cargo's own fingerprinting rebuilds whenever a source file under the SUT
     changed."""
@@ -120,6 +120,8 @@ def cargo_build(pkg, variant, features=None, toolchain=None, manifest_dir=None, 
         cmd.append("--release")
     if features:
         cmd += ["--features", features]
+    if extra_args:
+        cmd += extra_args
     env = cargo_env(extra_env)
     env["CARGO_TARGET_DIR"] = td
     t0 = time.time()
